@@ -106,6 +106,23 @@ def flush (m : Marks) (pending docs : List Str) (prevdoc : Bool) : List Str × B
   | [], [d] => ([d], if d != '!' :: m.doc then true else prevdoc)
   | [], _ :: _ :: _ => (docs, true)
 
+/-- The rest of a loop iteration after the if/else on the stripped line: advance the
+    alt-block counters, append the line to the buffer and, when the logical line is
+    complete, split it at `;` and emit everything that is buffered. -/
+def feedTail (m : Marks) (s : RS) (line : Str) : Except RErr (RS × List Str) :=
+  let s := if s.readingAlt > 0 then { s with readingAlt := s.readingAlt + 1 } else s
+  let s := if s.readingPredocAlt > 0 then { s with readingPredocAlt := s.readingPredocAlt + 1 } else s
+  let s := { s with linebuffer := s.linebuffer ++ line }
+  let done := (!s.docbuffer.isEmpty || !s.linebuffer.isEmpty) && !s.continued
+              && !s.readingPredoc && s.readingPredocAlt == 0
+  if !done then .ok (s, []) else
+    let frags := quoteSplit ';' s.linebuffer
+    let pending := (frags.filter (fun f => !f.isEmpty)).map strip
+    if pending.isEmpty && s.docbuffer.isEmpty then .error .internal else
+    let (items, pd) := flush m pending s.docbuffer s.prevdoc
+    .ok ({ docbuffer := [], prevdoc := pd, readingAlt := s.readingAlt, continued := false,
+           readingPredoc := false, readingPredocAlt := 0, linebuffer := [] }, items)
+
 /-- One iteration of the `while not done` loop on one physical line.
     Returns the new state and the items emitted (non-empty only when the
     iteration ended with `done`). -/
@@ -164,24 +181,10 @@ def feed (m : Marks) (s : RS) (line0 : Str) : Except RErr (RS × List Str) :=
       (s, line.take i)
     | none => (s, line)
   let line := strip line
-  -- `tail` : the rest of the iteration after the if/else on the stripped line
-  let tail (s : RS) (line : Str) : Except RErr (RS × List Str) :=
-    let s := if s.readingAlt > 0 then { s with readingAlt := s.readingAlt + 1 } else s
-    let s := if s.readingPredocAlt > 0 then { s with readingPredocAlt := s.readingPredocAlt + 1 } else s
-    let s := { s with linebuffer := s.linebuffer ++ line }
-    let done := (!s.docbuffer.isEmpty || !s.linebuffer.isEmpty) && !s.continued
-                && !s.readingPredoc && s.readingPredocAlt == 0
-    if !done then .ok (s, []) else
-      let frags := quoteSplit ';' s.linebuffer
-      let pending := (frags.filter (fun f => !f.isEmpty)).map strip
-      if pending.isEmpty && s.docbuffer.isEmpty then .error .internal else
-      let (items, pd) := flush m pending s.docbuffer s.prevdoc
-      .ok ({ docbuffer := [], prevdoc := pd, readingAlt := s.readingAlt, continued := false,
-             readingPredoc := false, readingPredocAlt := 0, linebuffer := [] }, items)
   match line with
   | [] =>
     let s := if s.prevdoc && s.docbuffer.isEmpty then { s with docbuffer := ['!' :: m.doc] } else s
-    tail s []
+    feedTail m s []
   | c :: rest =>
     let s := { s with readingPredoc := false, readingPredocAlt := 0, readingAlt := 0 }
     if c == '&' then
@@ -190,7 +193,7 @@ def feed (m : Marks) (s : RS) (line0 : Str) : Except RErr (RS × List Str) :=
         else
           let (s, line) := if rest.getLast? == some '&' then ({ s with continued := true }, rest.dropLast)
                            else ({ s with continued := false }, rest)
-          tail s line
+          feedTail m s line
       else if rest.isEmpty then .ok (s, [])        -- `len(line.strip()) == 1: continue`
       else .error .ampStart
     else
@@ -198,7 +201,7 @@ def feed (m : Marks) (s : RS) (line0 : Str) : Except RErr (RS × List Str) :=
       let line := c :: rest
       let (s, line) := if line.getLast? == some '&' then ({ s with continued := true }, line.dropLast)
                        else ({ s with continued := false }, line)
-      tail s line
+      feedTail m s line
 
 /-- `list(FortranReader(file))` for a file whose physical lines are `lines`.
     When the file ends inside the loop the Python iterator just stops
